@@ -146,15 +146,23 @@ def build_harness(cfgs, extra_flags=()):
 
     def compile_one(c):
         b = bins[c.key()]
-        src = b + ".cpp"
+        # names unique per process: several checks may build the same configuration at the same time
+        src = "%s.%d.cpp" % (b, os.getpid())
+        tmp = "%s.%d.tmp" % (b, os.getpid())
+        os.makedirs(d, exist_ok=True)
         with open(src, "w") as f:
             f.write('#include "harness.hpp"\nusing namespace hh;\nint main() { %s r; return r.run(std::cin); }\n' % c.cpp())
-        r = sh(["g++"] + CXXFLAGS + list(extra_flags) + [src, "-o", b + ".tmp"])
+        r = sh(["g++"] + CXXFLAGS + list(extra_flags) + [src, "-o", tmp])
+        try:
+            os.remove(src)
+        except OSError:
+            pass
         if r.returncode != 0:
+            os.makedirs(d, exist_ok=True)
             with open(b + ".err", "w") as f:
                 f.write(r.stdout)
             return c, r.stdout
-        os.rename(b + ".tmp", b)
+        os.rename(tmp, b)
         return c, None
 
     uniq = []
